@@ -163,6 +163,11 @@ type ErrorSpec struct {
 type AuthSpec struct {
 	// Outcome per scheme name: true = accept
 	Accept map[string]bool `json:"accept"`
+	// UseGranted: the callbacks also enforce scopes the way goa documents it,
+	// with scheme.Validate(Granted); a callback accepts when Accept says so and
+	// Validate returns nil.
+	UseGranted bool     `json:"use_granted,omitempty"`
+	Granted    []string `json:"granted,omitempty"`
 }
 
 // Edit modifies the request produced by the generated client before it is sent.
@@ -226,6 +231,9 @@ type AuthCall struct {
 	Scopes []string `json:"scopes,omitempty"`
 	Req    []string `json:"required_scopes,omitempty"`
 	Accept bool     `json:"accept"`
+	// Validated: scheme.Validate was consulted; ValidateErr is its error text ("" = nil)
+	Validated   bool   `json:"validated,omitempty"`
+	ValidateErr string `json:"validate_err,omitempty"`
 }
 
 // Obs is the observation of one case.
@@ -1188,6 +1196,29 @@ func (h *H) Auth(svc, fn string, ctx context.Context, args []any, results []refl
 	}
 	if cs != nil && cs.c.Auth != nil {
 		call.Accept = cs.c.Auth.Accept[call.Scheme]
+		if cs.c.Auth.UseGranted {
+			for _, a := range args {
+				rv := reflect.ValueOf(a)
+				if rv.Kind() != reflect.Pointer || rv.IsNil() || rv.Elem().Kind() != reflect.Struct {
+					continue
+				}
+				if mv := rv.MethodByName("Validate"); mv.IsValid() && mv.Type().NumIn() == 1 && mv.Type().In(0) == reflect.TypeOf([]string(nil)) {
+					granted := cs.c.Auth.Granted
+					if granted == nil {
+						granted = []string{}
+					}
+					res := mv.Call([]reflect.Value{reflect.ValueOf(granted)})
+					call.Validated = true
+					if len(res) == 1 && !res[0].IsNil() {
+						call.ValidateErr = fmt.Sprint(res[0].Interface())
+						if call.ValidateErr == "" {
+							call.ValidateErr = "error"
+						}
+						call.Accept = false
+					}
+				}
+			}
+		}
 	}
 	if cs != nil {
 		cs.obs.AuthCalls = append(cs.obs.AuthCalls, call)
